@@ -233,7 +233,7 @@ def run(chk) -> None:
                 "tap) and 3 rotating CLI commands; non-trivial = every case (each damages a valid file); distinct "
                 "by (seed, fault sequence)")
     chk.assumptions = ["fault enumeration: TLC enumerates fault sequences, the byte-level instantiation is "
-                       "pseudo-random and recorded in the replay file", "hang = no result within 120 s"]
+                       "pseudo-random and recorded in the replay file", "hang = no result within 300 s"]
     r = tlc.run("Robust", "mc/Robust.cfg" if quick else "mc/Robust3.cfg", workers=1, timeout=900)
     chk.add_tlc("Robust fault sequences", r)
     cases = tlc.parse_cases(r.stdout)
@@ -286,7 +286,7 @@ def run(chk) -> None:
                             "rule": json.loads(lost[0])[0]}, dict(sj, lost=lost[:5], seconds=v["seconds"]),
                            f"{sj['seed']}: {name} lost {len(lost)} finding(s) of its healthy part, e.g. {lost[0]} "
                            f"(flood of {sj['n']} {sj['token']} characters appended; run took {v['seconds']} s)")
-    res = pool.run_jobs(job, jobs, nproc=NCPU, timeout=120)
+    res = pool.run_jobs(job, jobs, nproc=NCPU, timeout=300)
     records, meta = [], []
     for j, r_ in zip(jobs, res):
         case = {"seed": j["seed"], "faults": j["faults"], "rseed": j["rseed"], "cmds": j["cmds"], "big": j["big"]}
